@@ -1,0 +1,28 @@
+//go:build verif
+
+package interop
+
+// Contracts for the verif build tag (comment-only; see /verif/DESIGN.md).
+
+//@ prop C15
+//@ import transaction github.com/nspcc-dev/neo-go/pkg/core/transaction
+//@ import manifest github.com/nspcc-dev/neo-go/pkg/smartcontract/manifest
+//@ import util github.com/nspcc-dev/neo-go/pkg/util
+
+//@ spec signersOf(ic *Context) []transaction.Signer = ite(ic.signers != nil, ic.signers, ite(ic.Tx != nil, ic.Tx.Signers, nil))
+
+//@ func (*Context).Signers
+//@ requires ic != nil
+//@ ensures[same] same(result, signersOf(ic))
+
+// Deployed-contract lookup as seen by the scope check: whether a contract exists under a
+// hash and which groups its manifest lists (a function of the DAO state, uninterpreted).
+//@ spec hasContract(ic *Context, h util.Uint160) bool
+//@ spec cGroups(ic *Context, h util.Uint160) []manifest.Group
+
+//@ func (*Context).GetContract
+//@ assumed
+//@ pure
+//@ requires ic != nil
+//@ ensures (result1 == nil) == hasContract(ic, hash)
+//@ ensures result1 == nil ==> result0 != nil && same(result0.Manifest.Groups, cGroups(ic, hash))
